@@ -45,8 +45,31 @@ def flag_list(fl):
     return b'(' + b' '.join(FLAGS[f] for f in fl) + b')'
 
 
+DATE_ZONES = [b'+0000', b'-0700', b'+0530', b'+1300', b'-1100', b'+0000']
+
+
 def date_str(day):
-    return b'"%02d-Jan-2020 10:00:00 +0000"' % (1 + day % 28)
+    # the zone varies with the day: what has to be preserved is the instant, and a server that drops or swaps the zone moves it
+    return b'"%02d-Jan-2020 10:00:00 %s"' % (1 + day % 28, DATE_ZONES[day % len(DATE_ZONES)])
+
+
+def _instant(text):
+    import datetime
+    return datetime.datetime.strptime(text.decode('ascii').strip(), '%d-%b-%Y %H:%M:%S %z').timestamp()
+
+
+_DAY_OF_INSTANT = {}
+
+
+def day_of(internaldate):
+    """the day index whose `date_str` denotes the instant of this INTERNALDATE (any zone spelling), or -1"""
+    if not _DAY_OF_INSTANT:
+        for d in range(28):
+            _DAY_OF_INSTANT[_instant(date_str(d).strip(b'"'))] = 1 + d % 28
+    try:
+        return _DAY_OF_INSTANT.get(_instant(internaldate), -1)
+    except ValueError:
+        return -1
 
 
 def op_bytes(op, tag=b'a'):
@@ -294,7 +317,7 @@ class Real:
                 fl, rec = canon_flags(d[b'FLAGS'])
                 if rec:                 # an EXAMINE probe never owns \\Recent: it can only see one that was stored as a permanent flag
                     fl = tuple(sorted(fl + (9,)))
-                day = int(d[b'INTERNALDATE'].val[:2])
+                day = day_of(d[b'INTERNALDATE'].val)
                 out.append((int(d[b'UID'].val), fl, cid_of_size(int(d[b'RFC822.SIZE'].val), lf=self.kind != 'dict'), day))
         await c.send(b'p LOGOUT\r\n')
         await c.finish()
